@@ -24,7 +24,7 @@ RULE = ('seeded schedules: IMU stamps uniform / jittered / with 1..3 data gaps, 
         " Round 4: the filter's internal integrator starts with a capacity of 2..41 rows in every other run (growth boundaries inside short records); the two sensor triads configured independently (none / bias / scale-misalignment only / full); records of 1..3 increments.")
 ASSUMPTIONS = ['termination is decided as bounded progress: while-header visits <= 2 (increments + epochs in span) + 4 (sys.monitoring), '
                'never by wall clock', 'two streams of the same measurement class are outside the documented interface and not generated']
-REQUIRED_OBS = ['reruns_with_same_objects', 'schedules_with_permuted_tables', 'schedules_with_tiny_record', 'runs_with_small_integrator_capacity', 'schedules_with_independent_triad_models', 'runs_completed', 'loop_iterations', 'integrate_events', 'predict_events', 'hit_events', 'correct_events',
+REQUIRED_OBS = ['reruns_with_same_objects', 'schedules_with_permuted_tables', 'schedules_with_tiny_record', 'schedules_with_unsorted_measurement_rows', 'runs_with_small_integrator_capacity', 'schedules_with_independent_triad_models', 'runs_completed', 'loop_iterations', 'integrate_events', 'predict_events', 'hit_events', 'correct_events',
                 'schedules_with_clusters', 'schedules_with_gaps', 'schedules_without_measurements', 'epochs_inside_total',
                 'time_step_below_imu_interval', 'offline_checks']
 REQUIRED_CLASSES = {'all': ['uniform', 'jitter', 'gaps']}
@@ -106,6 +106,7 @@ def run_case(case):
     obs['epochs_inside_total'] = d['epochs_inside']
     obs['runs_with_small_integrator_capacity'] = int(bool(S.get('integrator_capacity')))
     obs['schedules_with_independent_triad_models'] = int(bool(d.get('mixed_models')))
+    obs['schedules_with_unsorted_measurement_rows'] = int(bool(d.get('rows_unsorted')))
     obs['schedules_with_tiny_record'] = int(bool(d.get('tiny_record')))
     obs['schedules_with_permuted_tables'] = int(bool(d.get('tables_permuted')))
     obs['schedules_with_clusters'] = int(d['max_epochs_in_one_interval'] >= 2)
